@@ -513,6 +513,10 @@ class Builtins:
             if isinstance(t, TSeq):
                 return self.seq_method(it, recv, name, args, kwargs, fr, node)
             if t is TStr:
+                if name == "match" and len(args) == 1:
+                    # a compiled pattern is carried as its source string (str has no method `match`):
+                    # PATTERN.match(s) is re.match(PATTERN, s)
+                    return self.cdb.externals.x_re_match(it, [recv, args[0]], kwargs, fr)
                 return self.cdb.externals.str_method(it, recv, name, args, kwargs, fr)
             if isinstance(t, TSet):
                 return self.set_method(it, recv, name, args, kwargs, fr, node)
@@ -582,8 +586,9 @@ class Builtins:
             present = z3.Select(t.dom(d.term), k)
             if it.branch(present):
                 return it.assume_wf(SV(t.v, z3.Select(t.val(d.term), k)))
-            self.writeback(it, node, it.dict_store(d, args[0], args[1]), fr)
-            return args[1]
+            dflt = it.coerce(args[1], t.v) if len(args) > 1 else NONE      # the default takes the dict's value type ([] -> empty list of it)
+            self.writeback(it, node, it.dict_store(d, args[0], dflt), fr)
+            return dflt
         raise Unsupported(f"dict method {name}")
 
     def seq_method(self, it, s, name, args, kwargs, fr, node):
